@@ -12,7 +12,7 @@ From Coq Require Import List Bool Arith NArith.
 From TG.Model Require Import Chars LineIndex ServerProto.
 From TG.Gen Require Import GenServerConv GenLineIndex.
 From TG.Model Require Import SymbolMap SymbolWf.
-From TG.Model Require CoreAst AstToCore Indexer IndexerOps Pipeline.
+From TG.Model Require CoreAst AstToCore Indexer IndexerOps Pipeline PipelineAll.
 From TG.Proofs Require BridgeSymbol.
 From TG.Proofs Require Import ServerProofs ServerSource ServerPipeline.
 Import ListNotations.
@@ -179,6 +179,46 @@ Theorem C09_position_faithful : forall (t : text) (o : N),
   bytes t <= u32_max -> on_char_boundary t o -> faithful t o.
 Proof. exact position_faithful. Qed.
 Print Assumptions C09_position_faithful.
+
+(** The remaining handlers from validity in C17's own vocabulary ([range_valid ws r = true] is what the C17 theorems
+    conclude), so that they compose with a C17 statement about the corresponding query of the complete model analysis
+    (PipelineAll.q_links / q_inlay / q_outline of group bridge) as soon as one exists: under [small_ws] only, document
+    links and inlay hints are answered with positions that denote / are faithful to the analysed offsets, document
+    symbols with the specification tree. *)
+Theorem C09_from_validity : forall (ws : list wtext), small_ws ws ->
+  let content := content_of ws in
+  (forall (f : N) (l : list (rng * file)),
+     (forall x, In x l -> range_valid ws (mkFR f (fst (fst x)) (snd (fst x))) = true) ->
+     h_document_link content (N.to_nat f) (Some l) =
+       Ok (Some (map (fun x => (spec_range content (N.to_nat f) (fst x), snd x)) l)) /\
+     forall x, In x l -> denotes ws (mkFR f (fst (fst x)) (snd (fst x))) (spec_range content (N.to_nat f) (fst x))) /\
+  (forall (f : N) (l : list N),
+     (forall o, In o l -> range_valid ws (mkFR f o o) = true) ->
+     h_inlay_hint content (N.to_nat f) (Some l) = Ok (Some (map (pos_of (content (N.to_nat f))) l)) /\
+     forall o, In o l -> exists t, fmap_get ws f = Some t /\ content (N.to_nat f) = t /\ o <= bytes t /\ faithful t o) /\
+  (forall (f : N) (l : list dsym),
+     (forall s, In s l -> sym_valid ws f s) ->
+     h_document_symbol content (N.to_nat f) (Some l) = Ok (Some (map (spec_symbol content (N.to_nat f)) l))).
+Proof.
+  intros ws Hs content. split; [|split].
+  - exact (valid_document_link ws Hs). - exact (valid_inlay_hint ws Hs). - exact (valid_document_symbol ws Hs).
+Qed.
+Print Assumptions C09_from_validity.
+
+(** Folding ranges only send line numbers and need no validity: for the folding answer of the complete model analysis
+    (PipelineAll.analyze_all / q_folding) every line sent is the specification's line of the analysed offset in the
+    requested file and exists in it. *)
+Theorem C09_pipeline_folding : forall (pfuel cfuel : nat) (files : list (text * text)) (root : text)
+    (A : PipelineAll.all_answers) (f : N) (l : list (N * N)),
+  PipelineAll.analyze_all pfuel cfuel files root = Some A -> PipelineAll.q_folding A f = Some l ->
+  let ws := BridgeSymbol.an_texts (PipelineAll.aa_an A) in
+  let content := content_of ws in
+  small_ws ws ->
+  h_folding_range content (N.to_nat f) (Some l) = Ok (Some (map (spec_lines content (N.to_nat f)) l)) /\
+  forall r, In r l -> fst (spec_lines content (N.to_nat f) r) <= count_terms (content (N.to_nat f)) /\
+                      snd (spec_lines content (N.to_nat f) r) <= count_terms (content (N.to_nat f)).
+Proof. exact pipeline_all_folding. Qed.
+Print Assumptions C09_pipeline_folding.
 
 (** Non-vacuity: main.td = include "sub.td"\n/* é */ class Foo : Bar;   sub.td = // ü😀\nclass Bar;  (by vm_compute
     through the whole model pipeline): the hypotheses hold; `Bar` is answered in sub.td's coordinates; `Foo`, which
